@@ -417,3 +417,105 @@ Proof.
   split; [exact (swaps_decode 8 _ N64)|].
   exact (conj R16 (conj R32 R64)).
 Qed.
+
+(* ---- buffers -------------------------------------------------------------------------------- *)
+
+Definition chk_octet_len (o : Z) : bool := (length (dec o) <=? 3)%nat.
+
+Lemma sweep_octet_len : forallb chk_octet_len (zs 0 256) = true.
+Proof. vm_cast_no_check (eq_refl true). Qed.
+
+Lemma dec_octet_len b : (length (dec (Z_of_byte b)) <= 3)%nat.
+Proof.
+  pose proof (Z_of_byte_range b) as Hb.
+  pose proof (forallb_zs _ _ _ sweep_octet_len (Z_of_byte b) ltac:(lia)) as H.
+  unfold chk_octet_len in H. apply Nat.leb_le in H. exact H.
+Qed.
+
+(* INET_ADDRSTRLEN - 1 *)
+Lemma ntop4_len a b c d : (length (ntop4 [a; b; c; d]) <= 15)%nat.
+Proof.
+  unfold ntop4. cbn [map join]. rewrite !app_length. cbn [length]. rewrite !app_length. cbn [length].
+  rewrite !app_length. cbn [length].
+  pose proof (dec_octet_len a). pose proof (dec_octet_len b). pose proof (dec_octet_len c). pose proof (dec_octet_len d). lia.
+Qed.
+
+Lemma dec_port_len p : 0 <= p < 65536 -> (length (dec p) <= 5)%nat.
+Proof.
+  intros Hp. unfold dec. rewrite pad_length. apply ndigits_le; [|lia].
+  change (10 ^ Z.of_nat 5) with 100000. lia.
+Qed.
+
+Lemma ntop_into_fits size text : Z.of_nat (length text) < size -> ntop_into size text = text.
+Proof. intros H. unfold ntop_into. destruct (Z.ltb_spec (Z.of_nat (length text)) size); [reflexivity|lia]. Qed.
+
+Lemma snprintf_into_fits room text : Z.of_nat (length text) < room -> snprintf_into room text = text.
+Proof. intros H. unfold snprintf_into. apply firstn_all2. lia. Qed.
+
+(* InetAddress::toIp() / toIpPort() with their scratch arrays (sizes GENERATED from InetAddress.cc,
+   size checks and the '[' offset GENERATED from SocketsOps.cc): no assert of SocketsOps.cc fires and
+   nothing is truncated -- the strings are those of the unbounded model -- for every address and
+   port, provided inet_ntop(AF_INET6) prints at most INET6_ADDRSTRLEN - 1 = 45 characters *)
+Lemma inet_buffers ntop6 sa p :
+  (forall a, (length (ntop6 a) <= 45)%nat) ->
+  0 <= p < 65536 -> sa_port sa = port_store p ->
+  (sa_family sa = AF_INET \/ sa_family sa = AF_INET6) ->
+  (sa_family sa = AF_INET -> exists a b c d, sa_addr sa = [a; b; c; d]) ->
+  inet_toIp ntop6 sa = Some (toIp ntop6 sa) /\ inet_toIpPort ntop6 sa = Some (toIpPort ntop6 sa).
+Proof.
+  intros H6 Hp Hport Hfam H4.
+  destruct (port_sites p Hp) as (_ & _ & _ & _ & L4 & L6 & _).
+  pose proof (dec_port_len p Hp) as Hdl.
+  unfold inet_toIp, inet_toIpPort, toIp_buf, toIpPort_buf, toIpPort, toIp_buf. rewrite Hport, L4, L6, fmt4_eq, fmt6_eq.
+  destruct Hfam as [Ef|Ef].
+  - rewrite (toIp_v4 _ _ Ef). rewrite Ef. destruct (H4 Ef) as (a & b & c & d & Ha). rewrite Ha.
+    pose proof (ntop4_len a b c d) as Hl.
+    change (AF_INET =? SocketsOps_toIp_family4) with true.
+    change (AF_INET =? SocketsOps_toIpPort_family6) with false.
+    change (inet_ntop_m ntop6 SocketsOps_toIp_family4 [a; b; c; d]) with (ntop4 [a; b; c; d]).
+    change (InetAddress_toIp_bufsize >=? SocketsOps_toIp_need4) with true.
+    change (InetAddress_toIpPort_bufsize >=? SocketsOps_toIp_need4) with true.
+    cbv iota.
+    rewrite !ntop_into_fits by (change InetAddress_toIp_bufsize with 64; change InetAddress_toIpPort_bufsize with 64; lia).
+    split; [reflexivity|].
+    destruct (Z.gtb_spec InetAddress_toIpPort_bufsize (Z.of_nat (length (ntop4 [a; b; c; d])))) as [_|Hbad];
+      [|change InetAddress_toIpPort_bufsize with 64 in Hbad; lia].
+    rewrite snprintf_into_fits; [reflexivity|].
+    cbn [length]. change InetAddress_toIpPort_bufsize with 64. lia.
+  - rewrite (toIp_v6 _ _ Ef). rewrite Ef. pose proof (H6 (sa_addr sa)) as Hl.
+    change (AF_INET6 =? SocketsOps_toIp_family4) with false.
+    change (AF_INET6 =? SocketsOps_toIp_family6) with true.
+    change (AF_INET6 =? SocketsOps_toIpPort_family6) with true.
+    change (inet_ntop_m ntop6 SocketsOps_toIp_family6 (sa_addr sa)) with (ntop6 (sa_addr sa)).
+    change (InetAddress_toIp_bufsize >=? SocketsOps_toIp_need6) with true.
+    change (InetAddress_toIpPort_bufsize - SocketsOps_toIpPort_v6_off >=? SocketsOps_toIp_need6) with true.
+    cbv iota.
+    rewrite !ntop_into_fits by (change InetAddress_toIp_bufsize with 64; change InetAddress_toIpPort_bufsize with 64;
+                                change SocketsOps_toIpPort_v6_off with 1; lia).
+    split; [reflexivity|]. cbv zeta.
+    destruct (Z.gtb_spec InetAddress_toIpPort_bufsize (Z.of_nat (length (byte_of_Z SocketsOps_toIpPort_open6 :: ntop6 (sa_addr sa))))) as [_|Hbad];
+      [|cbn [length] in Hbad; change InetAddress_toIpPort_bufsize with 64 in Hbad; lia].
+    rewrite snprintf_into_fits; [reflexivity|].
+    cbn [length]. change InetAddress_toIpPort_bufsize with 64. lia.
+Qed.
+
+(* the sizes, spelled out: '[' + 45 + "]:" + 5 digits + NUL fits, and what is left after the '['
+   satisfies the size check of sockets::toIp *)
+Lemma inet_buffer_sizes :
+  InetAddress_toIpPort_bufsize >= 1 + 45 + 2 + 5 + 1 /\ InetAddress_toIp_bufsize >= 45 + 1 /\
+  InetAddress_toIpPort_bufsize - SocketsOps_toIpPort_v6_off >= SocketsOps_toIp_need6 /\
+  InetAddress_toIp_bufsize >= SocketsOps_toIp_need6 /\ SocketsOps_toIp_need6 >= 45 + 1 /\ SocketsOps_toIp_need4 >= 15 + 1.
+Proof. vm_compute. repeat split; discriminate. Qed.
+
+(* setScopeId changes nothing toIp / toIpPort / port() print; on an IPv4 address it does nothing *)
+Lemma scope_id_invisible ntop6 sa id :
+  toIp ntop6 (set_scope_id sa id) = toIp ntop6 sa /\ toIpPort ntop6 (set_scope_id sa id) = toIpPort ntop6 sa /\
+  inet_toIp ntop6 (set_scope_id sa id) = inet_toIp ntop6 sa /\ inet_toIpPort ntop6 (set_scope_id sa id) = inet_toIpPort ntop6 sa /\
+  inet_port (set_scope_id sa id) = inet_port sa /\
+  (sa_family sa = AF_INET -> set_scope_id sa id = sa) /\
+  (sa_family sa = AF_INET6 -> sa_scope (set_scope_id sa id) = id).
+Proof.
+  unfold set_scope_id. destruct (Z.eqb_spec (sa_family sa) InetAddress_setScopeId_family) as [E|E].
+  - repeat split; try reflexivity. intros H. rewrite H in E. discriminate.
+  - repeat split; try reflexivity. intros H. rewrite H in E. exfalso. apply E. reflexivity.
+Qed.
